@@ -1043,6 +1043,38 @@ func ruleST2(c *Ctx) *rule {
 		Necessity: "a stream that is silenced too late (or not at all) lets task echo and command output through to standard output under --quiet/--json"}
 	appRun := c.method("cli/app", "App", "Run")
 	fi := c.info(appRun)
+	// nothing derived from the stream is parked in another field of App, where it would outlive the replacement of App.stream
+	{
+		key := "cli/app.App no writer kept beside stream"
+		bad := ""
+		st, _ := c.namedType("cli/app", "App").Underlying().(*types.Struct)
+		for i := 0; st != nil && i < st.NumFields(); i++ {
+			name := st.Field(i).Name()
+			if name == "stream" {
+				continue
+			}
+			for _, store := range c.fieldStores()["cli/app.App."+name] {
+				sl := c.newSlicer()
+				sl.depth = 1
+				sl.objFlow = true
+				res := sl.run(store.Val)
+				fromStream := res.hasField("iostream.IOStream.Stdout") || res.hasField("iostream.IOStream.Stderr") || res.hasField("cli/app.App.stream")
+				for _, p := range res.params {
+					if isNamed(p.Type(), pkgPath("iostream"), "IOStream") {
+						fromStream = true
+					}
+				}
+				if fromStream {
+					bad = fmt.Sprintf("App.%s is given a value built from the stream at %s: it keeps writing to the original standard output after --quiet/--json have replaced App.stream", name, c.ipos(store))
+				}
+			}
+		}
+		if bad == "" {
+			r.ok(key, c.pos(appRun.Pos()), "App.stream is the only field of App that refers to the stream")
+		} else {
+			r.bad(key, c.pos(appRun.Pos()), bad)
+		}
+	}
 	// functions that read App.stream
 	reads := map[*ssa.Function]bool{}
 	for _, f := range c.ModFuncs {
@@ -2206,6 +2238,104 @@ func ruleRT3(c *Ctx) *rule {
 	return r
 }
 
+// ---- ST10: with --json a successful run always prints the report ---------------------------------------------------------------------
+
+func ruleST10(c *Ctx) *rule {
+	r := &rule{ID: "ST10", Engine: "E2+E3", Floor: 1,
+		Statement: "with Options.JSON set, every path from a successful SpokFile.Run to a return without error passes through the write of Results.JSON() to standard output",
+		Necessity: "a shortcut return (nothing ran, only dependencies ran, …) that sits before the report leaves a --json consumer with empty output although the run succeeded"}
+	runM := c.method("file", "SpokFile", "Run")
+	n := 0
+	for _, site := range c.callersOf(runM) {
+		f := site.Parent()
+		call, ok := site.(*ssa.Call)
+		if !ok {
+			continue
+		}
+		// the report writes of this function: direct standard-output writes whose argument derives from Results.JSON()
+		isReport := func(in ssa.Instruction) bool {
+			cs, ok := in.(ssa.CallInstruction)
+			if !ok {
+				return false
+			}
+			name := calleeName(cs.Common())
+			if !stdoutWriters[name] && !(strings.HasPrefix(name, "fmt.Fprint") && writesToOsStdout(cs)) {
+				return false
+			}
+			sl := c.newSlicer()
+			sl.depth = 0
+			return sl.run(cs.Common().Args...).hasCall("(github.com/FollowTheProcess/spok/task.Results).JSON")
+		}
+		has := false
+		for _, cs := range callSites(f) {
+			if isReport(cs) {
+				has = true
+			}
+		}
+		if !has {
+			continue // this caller does not report (ST1 judges where reports are written)
+		}
+		n++
+		key := fmt.Sprintf("%s SpokFile.Run#%d json-report-on-success", fname(f), n)
+		seen := map[string]bool{}
+		bad := ""
+		var dfs func(b *ssa.BasicBlock, idx int, ps *pathState)
+		dfs = func(b *ssa.BasicBlock, idx int, ps *pathState) {
+			if bad != "" {
+				return
+			}
+			if idx == 0 {
+				k := fmt.Sprintf("%d|%s", b.Index, ps.key())
+				if seen[k] || len(seen) > feasibleStateBudget {
+					return
+				}
+				seen[k] = true
+			}
+			for _, in := range b.Instrs[idx:] {
+				if isReport(in) {
+					return
+				}
+				if ret, isRet := in.(*ssa.Return); isRet {
+					if ev := returnedErr(ret); ev == nil || ps.mayBeNil(ev) {
+						bad = "with --json the call can return without error at " + c.ipos(ret) + " without having printed the report"
+					}
+					return
+				}
+			}
+			for i, s := range b.Succs {
+				_, _, next, feasible := ps.branch(b, i)
+				if !feasible {
+					continue
+				}
+				dfs(s, 0, next.enter(s, b))
+			}
+		}
+		pos := 0
+		for k, in := range call.Block().Instrs {
+			if in == ssa.Instruction(call) {
+				pos = k + 1
+			}
+		}
+		ps := newPathStateFor(f).seedFromGuards(call.Block())
+		as := map[string]bool{}
+		for k, v := range ps.assume {
+			as[k] = v
+		}
+		as["opt:JSON"] = true
+		ps = &pathState{phi: ps.phi, assume: as, fi: ps.fi}
+		dfs(call.Block(), pos, ps)
+		if bad == "" {
+			r.ok(key, c.ipos(call), "every successful way out prints the report")
+		} else {
+			r.bad(key, c.ipos(call), bad)
+		}
+	}
+	if n == 0 {
+		r.undecided("module json report", "-", "no caller of SpokFile.Run writes Results.JSON() to standard output")
+	}
+	return r
+}
+
 // ---- ST9: data is never used as a format string ------------------------------------------------------------------------------------
 
 func ruleST9(c *Ctx) *rule {
@@ -2289,7 +2419,7 @@ func appProperties() []*propertySpec {
 			Explanation: "ST1 proves that the only direct standard-output write reachable from App.Run prints Results.JSON() under Options.JSON; ST6 that JSON() marshals the untouched result of SpokFile.Run with the expected field tags; ST2 that --quiet/--json replace App.stream by the Null stream before anything can read it; ST3 that stdout/stderr capture buffers are paired with the right stream and result fields and Result.Cmd is the executed text; ST4 that listings collect map keys, sort them and only then write; ST5 the default dispatch; GR6 (shared with C03) gives one result per task in execution order.",
 			NotCovered:  []string{"encoding/json's rendering", "tabwriter layout", "docstring text (value-level)"},
 			Assumptions: []string{"fmt.Println writes to the process's standard output; io.Discard discards; io.MultiWriter duplicates writes to all its writers"},
-			Rules:       []func(*Ctx) *rule{ruleST1, ruleST2, ruleST3, ruleST4, ruleST5, ruleST6, ruleST7, ruleST8, ruleST9, ruleGR6, ruleRT4}},
+			Rules:       []func(*Ctx) *rule{ruleST1, ruleST2, ruleST3, ruleST4, ruleST5, ruleST6, ruleST7, ruleST8, ruleST9, ruleST10, ruleGR6, ruleRT4}},
 	}
 }
 
